@@ -1129,10 +1129,18 @@ impl<'a> Binder<'a> {
     }
 
     fn wider_numeric(&self, a: DataTypeKind, b: DataTypeKind) -> DataTypeKind {
+        use DataTypeKind::*;
+        // Has to agree with what the evaluator produces (`DataType::add` and friends): the inferred
+        // type becomes the type of the output column and every value is cast to it.
         match (a, b) {
-            (DataTypeKind::Double, _) | (_, DataTypeKind::Double) => DataTypeKind::Double,
-            (DataTypeKind::BigInt, _) | (_, DataTypeKind::BigInt) => DataTypeKind::BigInt,
-            (DataTypeKind::Int, _) | (_, DataTypeKind::Int) => DataTypeKind::Int,
+            // any floating point operand makes the operation a floating point one
+            (Double | Float, _) | (_, Double | Float) => Double,
+            (BigInt, _) | (_, BigInt) => BigInt,
+            // unsigned with unsigned stays unsigned (computed in 64 bits)
+            (UInt | BigUInt, UInt | BigUInt) => BigUInt,
+            // signed with unsigned is computed as a signed 64 bit integer
+            (Int, UInt | BigUInt) | (UInt | BigUInt, Int) => BigInt,
+            (Int, _) | (_, Int) => Int,
             _ => a,
         }
     }
